@@ -15,6 +15,7 @@ import (
 	"k8s.io/client-go/tools/cache"
 
 	klient "github.com/flant/kube-client/client"
+	"github.com/flant/shell-operator/pkg/utils/verifhook"
 )
 
 type namespaceInformer struct {
@@ -121,6 +122,9 @@ func (ni *namespaceInformer) OnDelete(obj interface{}) {
 }
 
 func (ni *namespaceInformer) start() {
+	if verifhook.Skip("nsi.start") {
+		return
+	}
 	log.Debug("Run namespace informer", slog.String("name", ni.Monitor.Metadata.DebugName))
 	if ni.SharedInformer == nil {
 		log.Error("Possible BUG!!! Start called before createSharedInformer, ShredInformer is nil",
